@@ -27,8 +27,12 @@ func init() {
 type guardFrame struct {
 	rel     string
 	fd      *ast.FuncDecl
-	handler *ast.FuncLit
-	records string     // what the handler records into
+	handler *ast.FuncLit // the deferred closure, or nil when a named function is deferred
+	hfn     *types.Func  // the deferred named function (its own body calls recover)
+	hbody   *ast.BlockStmt
+	hinfo   *types.Info
+	hargs   map[types.Object]ast.Expr // named handler: parameter -> argument of the defer statement
+	records string                    // what the handler records into
 	prefix  []ast.Stmt // statements before the defer: they run unprotected
 	why     string     // "" if intact
 }
@@ -61,10 +65,34 @@ func findGuardFrames(p *core.Program) []*guardFrame {
 			// any deferred closure calling recover
 			var ds *ast.DeferStmt
 			pos := -1
+			g := &guardFrame{rel: rel, fd: fd}
 			for i, st := range fd.Body.List {
-				if d, ok := st.(*ast.DeferStmt); ok {
-					if fl, ok := d.Call.Fun.(*ast.FuncLit); ok && callsRecover(info, fl) {
+				d, ok := st.(*ast.DeferStmt)
+				if !ok {
+					continue
+				}
+				if fl, ok := d.Call.Fun.(*ast.FuncLit); ok && callsRecover(info, fl) {
+					ds, pos = d, i
+					g.handler, g.hbody, g.hinfo = fl, fl.Body, info
+					break
+				}
+				// a named function or method of the module is deferred and calls recover itself
+				if fn := eng.CalleeOf(info, d.Call); fn != nil {
+					if hrel, hfd := p.DeclOf(fn); hfd != nil && hfd.Body != nil && callsRecoverDirectly(p.Pkg(hrel).TypesInfo, hfd.Body) {
 						ds, pos = d, i
+						g.hfn, g.hbody, g.hinfo = fn, hfd.Body, p.Pkg(hrel).TypesInfo
+						g.hargs = map[types.Object]ast.Expr{}
+						k := 0
+						if hfd.Type.Params != nil {
+							for _, f := range hfd.Type.Params.List {
+								for _, nm := range f.Names {
+									if k < len(d.Call.Args) {
+										g.hargs[g.hinfo.Defs[nm]] = d.Call.Args[k]
+									}
+									k++
+								}
+							}
+						}
 						break
 					}
 				}
@@ -72,7 +100,6 @@ func findGuardFrames(p *core.Program) []*guardFrame {
 			if ds == nil {
 				continue
 			}
-			g := &guardFrame{rel: rel, fd: fd, handler: ds.Call.Fun.(*ast.FuncLit)}
 			// statements before the defer run unprotected: they are examined as part of the
 			// unguarded region (their static callees join U); a dynamic call there cannot be followed
 			g.prefix = fd.Body.List[:pos]
@@ -103,7 +130,9 @@ func findGuardFrames(p *core.Program) []*guardFrame {
 			}
 			// the handler: if r := recover(); r != nil { … record … }
 			var branch *ast.BlockStmt
-			for _, st := range g.handler.Body.List {
+			callerInfo := info
+			info := g.hinfo
+			for _, st := range g.hbody.List {
 				is, ok := st.(*ast.IfStmt)
 				if !ok {
 					continue
@@ -140,6 +169,19 @@ func findGuardFrames(p *core.Program) []*guardFrame {
 								}
 							} else if _, ok := l.(*ast.SelectorExpr); ok {
 								g.records = "field " + eng.ExprStr(l)
+							} else if st, ok := l.(*ast.StarExpr); ok && g.hargs != nil {
+								// *p = … where the defer statement passes &<named result> for p
+								if pid, ok := eng.Unparen(st.X).(*ast.Ident); ok {
+									if arg, ok := g.hargs[info.Uses[pid]]; ok {
+										if u, ok := eng.Unparen(arg).(*ast.UnaryExpr); ok && u.Op == token.AND {
+											if rid, ok := eng.Unparen(u.X).(*ast.Ident); ok {
+												if v, ok := objOf(callerInfo, rid).(*types.Var); ok && isNamedResult(callerInfo, fd, v) {
+													g.records = "named result " + rid.Name + " (through *" + pid.Name + " of " + g.hfn.Name() + ")"
+												}
+											}
+										}
+									}
+								}
 							}
 						}
 					}
@@ -198,6 +240,22 @@ func isBuiltinCall(info *types.Info, c *ast.CallExpr, name string) bool {
 	}
 	_, isB := info.Uses[id].(*types.Builtin)
 	return isB
+}
+
+// callsRecoverDirectly: recover() is called by the function itself (not by a nested closure):
+// only then does deferring the function stop a panic.
+func callsRecoverDirectly(info *types.Info, body *ast.BlockStmt) bool {
+	found := false
+	ast.Inspect(body, func(n ast.Node) bool {
+		if _, ok := n.(*ast.FuncLit); ok {
+			return false
+		}
+		if c, ok := n.(*ast.CallExpr); ok && isBuiltinCall(info, c, "recover") {
+			found = true
+		}
+		return true
+	})
+	return found
 }
 
 func callsRecover(info *types.Info, fl *ast.FuncLit) bool {
@@ -295,10 +353,13 @@ func unguarded(p *core.Program, guards []*guardFrame) (map[*ssa.Function]string,
 			}
 			for _, an := range f.AnonFuncs {
 				if fl, ok := an.Syntax().(*ast.FuncLit); ok {
-					if g := guardDecl[f.Syntax().(*ast.FuncDecl).Pos()]; g != nil && g.handler == fl {
+					if g := guardDecl[f.Syntax().(*ast.FuncDecl).Pos()]; g != nil && g.handler != nil && g.handler == fl {
 						push(an, via+" → handler of "+f.Name())
 					}
 				}
+			}
+			if g := guardDecl[f.Syntax().(*ast.FuncDecl).Pos()]; g != nil && g.hfn != nil {
+				push(prog.FuncValue(g.hfn), via+" → handler of "+f.Name())
 			}
 			return
 		}
